@@ -125,7 +125,17 @@ def mutate_text(rng, t):
 
 def raw_texts(rng, n):
     """(text, kind): written tables in random spellings and byte-level mutations of them."""
-    res = []
+    res = [(t, "directed") for t in (
+        b"ID,a,b\nr0,x,y\n,,\nr2,,\n,,\n",                       # records made of empty fields only
+        b'a\n""\nx\n""\n',                                        # the same with one column
+        b"\n\nID,a\nr0,1\n\nr1,2\n",                             # blank lines before the header and between records
+        b'"multi\nline",b\n1,2\n',                                 # a line break inside a header field
+        b'ID,"a\r\nb"\r\nr0," x"\r\n',                            # CR LF everywhere
+        b"ID,a\nr0,1",                                              # no final line end
+        b'"ID","a"\n"r0","q""t"\n"r1",""\n',                       # everything quoted
+        b"ID\nr0\nr1\n",                                           # one column
+        b"\xef\xbb\xbfID,a\nr0,1\n",                              # a byte-order mark is part of the first header field
+    )]
     pool = [b"", b"a", b"b c", b'q"t', b'"', b",", b"x,y", b"l1\nl2", b"\r", b"a\rb", b" lead", b"trail ", b"\xc3\xa9", b"\xff", b"\x00", b"\t"]
     while len(res) < n:
         k = rng.randrange(1, 5)
